@@ -130,8 +130,10 @@ Hops(soup, e)     == Len(soup[e.seg].es) - e.sc
 TotalHops(soup, sol) == LET RECURSIVE Sum(_)
                             Sum(j) == IF j = 0 THEN 0 ELSE Hops(soup, sol[j]) + Sum(j - 1)
                         IN Sum(Len(sol))
-\* StandardPath::wire_valid: <= 63 hop fields per segment, 4 + 8 S + 12 H <= 984 bytes
+\* StandardPath::wire_valid: <= 63 hop fields per segment, <= 64 hop fields in total (CurrHF is a
+\* 6 bit index), 4 + 8 S + 12 H <= 984 bytes
 Encodable(soup, sol) == /\ \A j \in 1..Len(sol) : Hops(soup, sol[j]) \in 1..63
+                        /\ TotalHops(soup, sol) <= 64
                         /\ 4 + 8 * Len(sol) + 12 * TotalHops(soup, sol) <= 984
 
 HasLoops(ifs) == \E a \in {x[1] : x \in Range(ifs)} : Cardinality({i \in 1..Len(ifs) : ifs[i][1] = a}) > 2
